@@ -61,7 +61,7 @@ var nums = []string{"0", "3", "-7"}
 // form returns the tokens of one top-level form.
 func form(tag string) []string {
 	n := nums[vrt.Concrete(vrt.Choice(tag+"/num", len(nums)))]
-	switch vrt.Concrete(vrt.Choice(tag+"/form", 7)) {
+	switch vrt.Concrete(vrt.Choice(tag+"/form", 10)) {
 	case 0:
 		return []string{"(", "def", "a", n, ")"}
 	case 1:
@@ -74,8 +74,14 @@ func form(tag string) []string {
 		return []string{"(", "try", "(", "throw", n, ")", "(", "catch", "e", "(", "trace!", "e", ")", ")", ")"}
 	case 5:
 		return []string{"(", "trace!", "'", "(", "a", ":k", "\"s;(\"", ")", ")"}
-	default:
+	case 6:
 		return []string{"(", "throw", "{", ":code", n, "}", ")"}
+	case 7: // the text of a caught arity error is part of what the program computes
+		return []string{"(", "do", "(", "def", "pair", "(", "fn", "[", "p", "q", "]", "p", ")", ")", "(", "try", "(", "pair", n, ")", "(", "catch", "e", "(", "trace!", "(", "str", "e", ")", ")", ")", ")", ")"}
+	case 8: // ... and of a caught unbound-symbol error
+		return []string{"(", "try", "(", "trace!", "nosuch", ")", "(", "catch", "e", "(", "trace!", "(", "str", "e", ")", ")", ")", ")"}
+	default: // data read from different places of the text is equal when it is structurally equal
+		return []string{"(", "trace!", "(", "list", "(", "=", "{", ":k", "'", "x", "}", "{", ":k", "'", "x", "}", ")", "(", "=", "'", "(", "a", "[", "b", "]", ")", "'", "(", "a", "[", "b", "]", ")", ")", ")", ")"}
 	}
 }
 
